@@ -1083,9 +1083,8 @@ static sexp analyze_letrec_syntax (sexp ctx, sexp x, int depth) {
 }
 
 static sexp analyze (sexp ctx, sexp object, int depth, int defok) {
-  sexp op;
-  sexp_gc_var4(res, tmp, x, cell);
-  sexp_gc_preserve4(ctx, res, tmp, x, cell);
+  sexp_gc_var5(res, tmp, x, cell, op);
+  sexp_gc_preserve5(ctx, res, tmp, x, cell, op);
   x = object;
 
   if (++depth > SEXP_MAX_ANALYZE_DEPTH) {
@@ -1221,7 +1220,7 @@ error:
   if (sexp_exceptionp(res) && sexp_not(sexp_exception_source(res))
       && sexp_pairp(x))
     sexp_exception_source(res) = sexp_pair_source(x);
-  sexp_gc_release4(ctx);
+  sexp_gc_release5(ctx);
   return res;
 }
 
